@@ -3,6 +3,7 @@ import SFV.Proofs.FockTensor
 import SFV.Proofs.Bosonic
 import SFV.Proofs.GaussBackend
 import SFV.Proofs.BosonicRefine
+import SFV.Proofs.GaussRegister
 
 /-!
 # C01 — all simulator back ends compute the same physics
@@ -34,6 +35,22 @@ theorem gaussian_program_refines_from {K : Type} [CommRing K] (ops : List (GOp K
     (hI : NMInv st) (hok : ∀ op ∈ ops, op.ok) :
     toXP (ops.foldl applyNM st) = ops.foldl applyXP (toXP st) ∧ NMInv (ops.foldl applyNM st) :=
   applyNM_program ops st hI hok
+
+/-- **registers that grow and shrink**: for every sequence of gates, channels, `New` (`add_mode(m)`, any `m`) and `Del`
+(`del_mode(k)`) the Gaussian simulator's moments — and its register size — are those of the independent calculation in which
+new modes are uncorrelated vacua, old modes keep every entry, and a deleted mode is traced out -/
+theorem gaussian_register_program_refines {K : Type} [CommRing K] (ops : List (ROp K)) (n : Nat)
+    (hok : ∀ op ∈ ops, op.ok) :
+    (toXP (ops.foldl applyNMR (vacuum n)), (ops.foldl applyNMR (vacuum n : GS K)).n) =
+      ops.foldl applyXPR (toXP (vacuum n : GS K), n) :=
+  (applyNMR_program ops (vacuum n) (vacuum_inv n) hok).1
+
+/-- `add_mode(m)` keeps every moment among the old modes, whatever their number and `m` -/
+theorem gaussian_add_mode_keeps_old {K : Type} [CommRing K] (st : GS K) (m i j : Nat) (hi : i < st.n) (hj : j < st.n) :
+    (toXP (addMode st m)).xx i j = (toXP st).xx i j ∧ (toXP (addMode st m)).xp i j = (toXP st).xp i j ∧
+    (toXP (addMode st m)).pp i j = (toXP st).pp i j ∧ (toXP (addMode st m)).mx i = (toXP st).mx i ∧
+    (toXP (addMode st m)).mp i = (toXP st).mp i :=
+  addMode_keeps_old st m i j hi hj
 
 /-- **sign convention of the API layer**: `GaussianBackend.beamsplitter(θ, φ, k, l)` (which calls the
 circuit with `(−θ, −φ)`) realises the documented `B(θ, φ)`: `a_k ↦ cos θ·a_k − e^{−iφ} sin θ·a_l`,
@@ -156,5 +173,11 @@ example : (toXP (exProg.foldl applyNM (vacuum 3))).xx 0 2 ≠ 0 := by
     rcases h with rfl | rfl | rfl | rfl | rfl <;> simp [GOp.ok] <;> norm_num)]
   decide +kernel
 example : (2 : Nat) ≠ 0 ∧ (2 : Nat) < 3 ∧ (0 : Nat) < 3 := by decide
+
+/-- a register program: squeeze mode 1 of two, add one mode, mix old mode 1 with the new mode 2, delete mode 0 -/
+def exReg : List (ROp Rat) :=
+  [ .op (.squeeze (3/5) (4/5) (5/4) (3/4) 1), .newModes 1, .op (.bs (4/5) (-3/5) (3/5) (4/5) 1 2), .delMode 0 ]
+example : ((exReg.foldl applyNMR (vacuum 2)).n = 3) ∧ (toXP (exReg.foldl applyNMR (vacuum 2))).xx 1 2 ≠ 0 := by
+  decide +kernel
 
 end SFV.C01
